@@ -399,10 +399,17 @@ impl Interrupter {
 /// Build `StreamOpts` (and the interrupter) for a configuration.
 fn make_opts(cfg: &RunCfg) -> (StreamOpts<'static, 'static>, Interrupter) {
     let mut opts = StreamOpts::new();
-    if cfg.rev {
-        for _ in 0..=cfg.rev_again {
-            opts = opts.rev();
+    let apply_rev = |mut opts: StreamOpts<'static, 'static>| {
+        if cfg.rev {
+            for _ in 0..=cfg.rev_again {
+                opts = opts.rev();
+            }
         }
+        opts
+    };
+    #[cfg(not(feature = "intr"))]
+    {
+        opts = apply_rev(opts);
     }
     #[cfg(feature = "intr")]
     {
@@ -438,9 +445,23 @@ fn make_opts(cfg: &RunCfg) -> (StreamOpts<'static, 'static>, Interrupter) {
             }
             intr.pre = true;
         }
-        opts = opts
-            .interruptibility_state(state)
-            .interrupted_next_item_include(cfg.include);
+        // the builder methods are independent setters: any call order means the same
+        let order: [u8; 3] = match cfg.opts_order % 6 {
+            0 => [0, 1, 2],
+            1 => [0, 2, 1],
+            2 => [1, 0, 2],
+            3 => [1, 2, 0],
+            4 => [2, 0, 1],
+            _ => [2, 1, 0],
+        };
+        let mut state = Some(state);
+        for step in order {
+            opts = match step {
+                0 => apply_rev(opts),
+                1 => opts.interruptibility_state(state.take().expect("set once")),
+                _ => opts.interrupted_next_item_include(cfg.include),
+            };
+        }
         (opts, intr)
     }
     #[cfg(not(feature = "intr"))]
